@@ -2240,6 +2240,41 @@ func c05Exec(c fw.Case) *fw.Result {
 				res.Put("toggled_parts", fmt.Sprintf("%s/%v", n, invert))
 			}
 		}
+	case "large":
+		// element counts at and around size thresholds (powers of two): a decoder or encoder
+		// that switches strategy with the size (chunks, workers, pre-sized buffers) must still
+		// deliver every element, in order. Cheap elements, full comparison.
+		n := int(c.Int("n"))
+		g := jsonw.NewGen(r, jsonw.Random{R: r, P: 0.12})
+		g.MaxTags, g.MaxList, g.Unknown = 1, 2, false
+		res.Put("large_element_counts", fmt.Sprint(n))
+		if c.Int("change") == 0 {
+			d := g.Doc(0, 0)
+			kinds := jsonw.Kinds[:3]
+			if c.Int("mask") == 63 {
+				kinds = jsonw.Kinds
+			}
+			for i := 0; i < n; i++ {
+				d.Elements = append(d.Elements, g.Element(kinds[r.Intn(len(kinds))]))
+			}
+			run.checkDoc(d, &jsonw.Style{R: r, Shuffle: r.Bool(), Space: r.Intn(2)}, r, false)
+		} else {
+			blk := g.Doc(0, 0)
+			for i := 0; i < n; i++ {
+				blk.Elements = append(blk.Elements, g.Element(jsonw.Kinds[r.Intn(3)]))
+			}
+			cd := &jsonw.ChangeDoc{}
+			switch n % 3 {
+			case 0:
+				cd.Create = blk
+			case 1:
+				cd.Modify = blk
+			default:
+				cd.Delete = blk
+			}
+			run.checkChange(cd, &jsonw.Style{R: r, Shuffle: r.Bool(), Space: r.Intn(2)}, r)
+		}
+		res.Sample = map[string]any{"elements": n, "change": c.Int("change") == 1}
 	case "null":
 		// the third state of an optional member: written as null
 		switch c.Int("level") {
@@ -2427,6 +2462,16 @@ func c05Cases(tier string, seed uint64) []fw.Case {
 		cs = append(cs, fw.Case{Kind: "field", Seed: gen.Sub(seed, "c05field", k), P: map[string]int64{"kind": int64(k), "allconfigs": 1}})
 	}
 	cs = append(cs, fw.Case{Kind: "unknown-type", Seed: gen.Sub(seed, "c05unk", 0)})
+	sizes := []int64{255, 256, 257, 511, 512, 513, 1023, 1024, 1025, 1027, 2047, 2048, 2049, 2050, 4095, 4096, 4097, 4098, 4099, 8193}
+	if tier == "thorough" {
+		sizes = append(sizes, 127, 128, 129, 1026, 3071, 3072, 3073, 8191, 8192, 8194, 16383, 16384, 16385, 16386, 32769, 65537)
+	}
+	for i, n := range sizes {
+		cs = append(cs, fw.Case{Kind: "large", Seed: gen.Sub(seed, "c05large", i), P: map[string]int64{"n": n, "mask": []int64{7, 63}[i%2]}})
+		if tier == "thorough" || n <= 4099 {
+			cs = append(cs, fw.Case{Kind: "large", Seed: gen.Sub(seed, "c05largec", i), P: map[string]int64{"n": n, "change": 1}})
+		}
+	}
 	cs = append(cs, fw.Case{Kind: "null", Seed: gen.Sub(seed, "c05null", 0), P: map[string]int64{"level": 0, "allconfigs": 1}})
 	for k := range jsonw.Kinds {
 		cs = append(cs, fw.Case{Kind: "null", Seed: gen.Sub(seed, "c05null", 1+k), P: map[string]int64{"level": 1, "kind": int64(k)}})
@@ -2452,9 +2497,10 @@ func c05Cases(tier string, seed uint64) []fw.Case {
 	for i := 0; i < nRet; i++ {
 		cs = append(cs, fw.Case{Kind: "retained", Seed: gen.Sub(seed, "c05ret", i), P: map[string]int64{"docs": 6}})
 	}
+	creps := map[string]int{"": reps, "race": (reps + 1) / 2} // the race build is ~10x slower
 	for i, v := range []string{"", "", "race", "race"} {
 		cs = append(cs, fw.Case{Kind: "concurrent", Variant: v, Seed: gen.Sub(seed, "c05conc", i),
-			P: map[string]int64{"goroutines": 16, "docs": 6, "reps": int64(reps)}})
+			P: map[string]int64{"goroutines": 16, "docs": 6, "reps": int64(creps[v])}})
 	}
 	for i := 0; i < nBDoc; i++ {
 		p := map[string]int64{"docs": int64(docs), "mask": []int64{63, 7, 56}[i%3], "p": []int64{100, 50, 80}[(i/3)%3],
@@ -2498,7 +2544,7 @@ func init() {
 		ID:    "C05",
 		Level: "exploration",
 		Rule: "typed osmjson document models (every optional key a present/absent bit) from the harness generator: (a) fixed minimal documents; (b) all 32 combinations of generator/copyright/attribution/license/bounds for each version spelling (absent, number, string, null); " +
-			"(c) per element kind every optional part alone and all-but-it; (c') boundary values: on the value side every operator of a fixed table (non-nil pointer to an all-zero struct for top-level / way / relation bounds, committed, discussion, nested change and its blocks; empty but non-nil slices; zero ids, versions, coordinates, timestamps; empty strings; all-zero elements and members) alone, combined with an all-zero top-level bounds, and all at once, on four base containers, each as osm.OSM, as every block of an osm.Change and element by element; on the document side written values drawn as 0 / \"\" / [] / {} (bounds with members left out) with probability 15-100 %; (c3) forms: osm.OSM, osm.Change, every element kind, Tags, WayNodes, Members, Date (generated and zero values) marshalled as pointer, plain value, struct field by value, field of a pointed-to struct, map value, slice element, array element by value and inside interface{} (slice, map, field), through json.Marshal and through the installed codec itself; shape + round trip of the part that is the value, and equality with the pointer form; (c'') retained output: every MarshalJSON method of the library (OSM, Tags, WayNodes, Members, Date) called directly, the bytes kept while other values are marshalled, then checked unchanged and still denoting the original; concurrent: 16 goroutines marshalling / unmarshalling their own documents at once, one phase per codec configuration (codec installed before the goroutines start), plain and race builds; (d) PRNG documents over kind masks, presence probabilities 0..100 %, 0-12 elements, arbitrary UTF-8 incl. control characters, negative and >2^40 ids, equivalent float and RFC 3339 spellings, unknown keys at every level; (e) change documents. " +
+			"(c) per element kind every optional part alone and all-but-it; (c') boundary values: on the value side every operator of a fixed table (non-nil pointer to an all-zero struct for top-level / way / relation bounds, committed, discussion, nested change and its blocks; empty but non-nil slices; zero ids, versions, coordinates, timestamps; empty strings; all-zero elements and members) alone, combined with an all-zero top-level bounds, and all at once, on four base containers, each as osm.OSM, as every block of an osm.Change and element by element; on the document side written values drawn as 0 / \"\" / [] / {} (bounds with members left out) with probability 15-100 %; (c3) forms: osm.OSM, osm.Change, every element kind, Tags, WayNodes, Members, Date (generated and zero values) marshalled as pointer, plain value, struct field by value, field of a pointed-to struct, map value, slice element, array element by value and inside interface{} (slice, map, field), through json.Marshal and through the installed codec itself; shape + round trip of the part that is the value, and equality with the pointer form; (c4) null as the third state of optional members of independently written documents (top level asserted, element members recorded); (c5) element counts at and around powers of two from 255 to 8193 (thorough 65537), as OSM documents and change blocks; (c'') retained output: every MarshalJSON method of the library (OSM, Tags, WayNodes, Members, Date) called directly, the bytes kept while other values are marshalled, then checked unchanged and still denoting the original; concurrent: 16 goroutines marshalling / unmarshalling their own documents at once, one phase per codec configuration (codec installed before the goroutines start), plain and race builds; (d) PRNG documents over kind masks, presence probabilities 0..100 %, 0-12 elements, arbitrary UTF-8 incl. control characters, negative and >2^40 ids, equivalent float and RFC 3339 spellings, unknown keys at every level; (e) change documents. " +
 			"Each model is written by the independent writer (shuffled keys, white space, \\u escapes) and unmarshalled, and the value it denotes (plus way-node annotations) is marshalled, shape-checked on a generic parse and unmarshalled again; every step under the default and the recording user codec (a quarter of the cases also with only one of the two hooks installed). " +
 			"One evaluation = one (model, flow, configuration); a signature is (flow, configuration, version spelling, top-level presence mask, bounds, unknown keys, element kinds present).",
 		Assumptions: []string{
@@ -2518,6 +2564,9 @@ func init() {
 		// the harness' own shared state in the concurrent cases is mutex-guarded (fw.Result,
 		// the recording codec) or written before the goroutines start
 		RaceIsViolation: true,
+		// a concurrent case under the race detector is one long case; on a loaded machine it
+		// must not trip the supervisor's no-progress watchdog
+		HangSeconds: 1200,
 		Post: func(tier string, agg *fw.Agg) {
 			for _, name := range []string{"codec_marshal_argument_types", "codec_unmarshal_target_types", "null_member_outcomes"} {
 				var l []string
